@@ -43,6 +43,27 @@ RULE_TEXT = {
 }
 
 
+def sweep_scratch(max_age_s=3600):
+    """Scratch directories are removed by the run that made them; one whose process was killed stays
+    behind. Remove those that have not been touched for an hour."""
+    import shutil
+    import tempfile
+
+    for root in ("/dev/shm", tempfile.gettempdir()):
+        try:
+            names = os.listdir(root)
+        except OSError:
+            continue
+        for n in names:
+            if n.startswith(("verif-disk-", "verif-c13-", "verif-mutant-")):
+                p = os.path.join(root, n)
+                try:
+                    if time.time() - os.stat(p).st_mtime > max_age_s:
+                        shutil.rmtree(p, ignore_errors=True)
+                except OSError:
+                    pass
+
+
 def load_known():
     p = os.path.join(ROOT, "known_findings.json")
     if not os.path.exists(p):
@@ -143,6 +164,7 @@ def main(argv=None):
     blocks, runs, wall = TIERS[prop][tier]
     blocks = a.blocks or blocks
     runs = a.runs or runs
+    sweep_scratch()
     outdir = os.path.join(ROOT, "replays")
     os.makedirs(outdir, exist_ok=True)
     for f in os.listdir(outdir):  # leftovers of an earlier batch with the same seed
